@@ -246,12 +246,10 @@ func pathSearch(start *ssa.BasicBlock, idx int, q PathQuery) *Exit {
 					}
 				}
 				if !decided {
-					// the same condition value was branched on earlier on this path
-					for kc, v := range it.known {
-						if SameCond(kc, cond) {
-							decided, val = true, v == condPol
-							break
-						}
+					// the same condition value was branched on earlier on this path, or the condition is a flag
+					// (boolean phi) all of whose inputs are decided by what is known on this path
+					if v, ok := evalUnder(cond, it.known, 0); ok {
+						decided, val = true, v == condPol
 					}
 				}
 				if decided {
@@ -1146,4 +1144,91 @@ func SameCond(a, b ssa.Value) bool {
 		}
 	})
 	return !bad
+}
+
+// evalUnder evaluates a branch condition under the conditions decided earlier on a path: a constant, a
+// condition that was branched on before (SameCond), a negation, or a boolean phi all of whose inputs evaluate
+// to the same value (a flag computed from earlier tests, e.g. x := !a && !b tested later).
+func evalUnder(cond ssa.Value, known map[ssa.Value]bool, depth int) (bool, bool) {
+	c, pol := normBool(cond, true)
+	if k, isC := boolConst(c); isC {
+		return k == pol, true
+	}
+	for kc, v := range known {
+		if SameCond(kc, c) {
+			return v == pol, true
+		}
+	}
+	if depth > 3 {
+		return false, false
+	}
+	ph, ok := c.(*ssa.Phi)
+	if !ok {
+		return false, false
+	}
+	if b, isB := ph.Type().Underlying().(*types.Basic); !isB || b.Info()&types.IsBoolean == 0 {
+		return false, false
+	}
+	have, val := false, false
+	for i, e := range ph.Edges {
+		// an input edge whose own branch conditions contradict what is known is not taken
+		contra := false
+		for _, ef := range edgeFacts(ph.Block().Preds[i], ph.Block()) {
+			if v, ok := evalUnder(ef.Cond, known, depth+1); ok && v != ef.Pol {
+				contra = true
+			}
+		}
+		if contra {
+			continue
+		}
+		v, ok := evalUnder(e, known, depth+1)
+		if !ok {
+			return false, false
+		}
+		if have && v != val {
+			return false, false
+		}
+		have, val = true, v
+	}
+	if !have {
+		return false, false
+	}
+	return val == pol, true
+}
+
+// FindCycleSensitive is FindCycle with memory of the branches taken (pathSearch): it returns a cycle through
+// a loop header of fn that avoids the removed blocks and edges and is not ruled out by conditions that are
+// tested twice on the way (flags). nil if there is none.
+func FindCycleSensitive(fn *ssa.Function, removedBlock func(*ssa.BasicBlock) bool, removedEdge func(from, to *ssa.BasicBlock) bool) []*ssa.BasicBlock {
+	for _, h := range fn.Blocks {
+		isHeader := false
+		for _, p := range h.Preds {
+			if h.Dominates(p) {
+				isHeader = true
+			}
+		}
+		if !isHeader || (removedBlock != nil && removedBlock(h)) || len(h.Instrs) == 0 {
+			continue
+		}
+		for _, s := range h.Succs {
+			if (removedEdge != nil && removedEdge(h, s)) || (removedBlock != nil && removedBlock(s)) {
+				continue
+			}
+			if s == h {
+				return []*ssa.BasicBlock{h}
+			}
+			first := h.Instrs[0]
+			e := pathSearch(s, 0, PathQuery{
+				Known:    EdgeFacts(h, s),
+				Target:   func(in ssa.Instruction) bool { return in == first },
+				SkipEdge: func(from, to *ssa.BasicBlock) bool {
+					return (removedEdge != nil && removedEdge(from, to)) || (removedBlock != nil && removedBlock(to) && to != h)
+				},
+			})
+			if e != nil {
+				return append([]*ssa.BasicBlock{h}, e.Path...)
+			}
+		}
+	}
+	return nil
 }
